@@ -424,6 +424,11 @@ func Run(in Input) ([]Entry, []StepObs, error) {
 	if err := makeTree(in.FS); err != nil {
 		return nil, nil, err
 	}
+	if in.CLI > 0 && in.Conf != "" {
+		if err := writeChrootStub(); err != nil {
+			return nil, nil, err
+		}
+	}
 	k := &simk.Kernel{Tab: append([]c12.KLine{}, in.Kernel.Tab...), NextID: in.Kernel.NextID, NextDev: in.Kernel.NextDev}
 	fs0 := dumpTree(ScratchBase)
 	cur := fs0
